@@ -69,7 +69,8 @@ static std::unique_ptr<Mesh> gen_mesh(Rng &r, int flavor, GenInfo &gi) {
   if (flavor >= 2 && !faces.empty()) for (int i = 0, n = (int)r.below(3); i < n; i++) { auto f = faces[r.below(faces.size())]; if (r.chance(50)) std::swap(f[0], f[1]); faces.push_back(f); }
   if (faces.empty()) faces.push_back({0, 1, npts - 1});
   mb.Start((int)faces.size());
-  int pos = mb.AddAttribute(GeometryAttribute::POSITION, 3, DT_FLOAT32);
+  const bool ipos = !curtain && r.chance(25);   // integer positions (plain integer attribute decoder, nothing to skip or dequantize)
+  int pos = mb.AddAttribute(GeometryAttribute::POSITION, 3, ipos ? DT_INT32 : DT_FLOAT32);
   int tex = r.chance(70) ? mb.AddAttribute(GeometryAttribute::TEX_COORD, 2, DT_FLOAT32) : -1;
   int nor = (curtain || r.chance(40)) ? mb.AddAttribute(GeometryAttribute::NORMAL, 3, DT_FLOAT32) : -1;
   int gi16 = r.chance(40) ? mb.AddAttribute(GeometryAttribute::GENERIC, 2, DT_INT16) : -1;
@@ -83,7 +84,8 @@ static std::unique_ptr<Mesh> gen_mesh(Rng &r, int flavor, GenInfo &gi) {
       bool right = seam >= 0 && (F[0] % (w + 1)) >= seam; uv[k][0] = (float)x / (w + 1) + (right ? .5f : 0.f); uv[k][1] = (float)y / (h + 1);
       float a = (float)((F[k] * 37) % 100) / 16.f; n[k][0] = std::sin(a); n[k][1] = std::cos(a) * .6f; n[k][2] = .8f * std::cos(a);
       g[k][0] = (int16_t)(F[k] % 9 - 4); g[k][1] = (int16_t)((f % 3) * 100 - 100); }
-    mb.SetAttributeValuesForFace(pos, FaceIndex((uint32_t)f), P[0], P[1], P[2]);
+    if (ipos) { int32_t q[3][3]; for (int k = 0; k < 3; k++) for (int c = 0; c < 3; c++) q[k][c] = (int32_t)std::lround(P[k][c] * 40.f); mb.SetAttributeValuesForFace(pos, FaceIndex((uint32_t)f), q[0], q[1], q[2]); }
+    else mb.SetAttributeValuesForFace(pos, FaceIndex((uint32_t)f), P[0], P[1], P[2]);
     if (tex >= 0) mb.SetAttributeValuesForFace(tex, FaceIndex((uint32_t)f), uv[0], uv[1], uv[2]);
     if (nor >= 0) mb.SetAttributeValuesForFace(nor, FaceIndex((uint32_t)f), n[0], n[1], n[2]);
     if (gi16 >= 0) mb.SetAttributeValuesForFace(gi16, FaceIndex((uint32_t)f), g[0], g[1], g[2]);
